@@ -530,3 +530,13 @@ package bfe_http2
 //@   nopanic nil
 //@   requires sc != nil && f != nil && (forall id uint32 :: has(sc.streams, id) ==> sc.streams[id] != nil)
 //@   modifies any stream.weight, any stream.parent
+
+// ---- C25: HTTP/2 header values that could end a header line in an HTTP/1.1 request are rejected ----
+
+//@ func validHeaderFieldValue
+//@   props C25
+//@   nopanic
+//@   modifies nothing
+//@   ensures[no_control_bytes_except_tab] result0 ==> (forall i int :: 0 <= i && i < len(v) ==> (v[i] >= 32 || v[i] == 9) && v[i] != 127)
+//@   ensures[every_such_value_is_accepted] (forall i int :: 0 <= i && i < len(v) ==> (v[i] >= 32 || v[i] == 9) && v[i] != 127) ==> result0
+//@   loop 1 invariant[checked_so_far] 0 <= i && i <= len(v) && (forall k int :: 0 <= k && k < i ==> (v[k] >= 32 || v[k] == 9) && v[k] != 127)
